@@ -24,6 +24,8 @@ type Term struct {
 	Args []*Term
 	Val  ssa.Value // a representative SSA value (for positions); may be nil
 	Bind []*Term   // for calls of closures: the closure's bindings (free variables), not rendered
+	Names []string // for struct values: the field names of Args
+	Env   *Ctx     // for closures: the activation that created the closure
 	str  string
 }
 
@@ -110,6 +112,12 @@ func (t *Term) String() string {
 		s = "union{" + strings.Join(parts, "|") + "}"
 	case "varargs":
 		s = "[" + argstr() + "]"
+	case "struct":
+		parts := make([]string, len(t.Args))
+		for i, a := range t.Args {
+			parts[i] = t.Names[i] + ":" + a.String()
+		}
+		s = "struct[" + t.Name + "]{" + strings.Join(parts, ",") + "}"
 	case "lookup":
 		s = "lookup(" + argstr() + ")"
 	case "range", "next":
@@ -194,7 +202,7 @@ func (t *Term) Subst(m map[string]*Term) *Term {
 	if !changed {
 		return t
 	}
-	n := &Term{Op: t.Op, Name: t.Name, Args: args, Val: t.Val}
+	n := &Term{Op: t.Op, Name: t.Name, Args: args, Val: t.Val, Names: t.Names, Env: t.Env}
 	for _, b := range t.Bind {
 		n.Bind = append(n.Bind, b.Subst(m))
 	}
@@ -204,6 +212,15 @@ func (t *Term) Subst(m map[string]*Term) *Term {
 
 func simplify(t *Term) *Term {
 	switch t.Op {
+	case "field":
+		// a field of a struct value whose fields are known
+		if x := t.Args[0]; x != nil && x.Op == "struct" {
+			for i, n := range x.Names {
+				if n == t.Name {
+					return x.Args[i]
+				}
+			}
+		}
 	case "load":
 		a := t.Args[0]
 		switch a.Op {
@@ -462,7 +479,7 @@ func expandWrappers(t *Term, depth int) *Term {
 	}
 	n := t
 	if changed {
-		n = simplify(&Term{Op: t.Op, Name: t.Name, Args: args, Val: t.Val, Bind: t.Bind})
+		n = simplify(&Term{Op: t.Op, Name: t.Name, Args: args, Val: t.Val, Bind: t.Bind, Names: t.Names})
 	}
 	if n.Op == "call" {
 		if c, ok := n.Val.(*ssa.Call); ok {
